@@ -1016,7 +1016,9 @@ func (g *Gen) equal(X, Y ssa.Value) string {
 func (g *Gen) sconcat(x, y string) string {
 	fn := g.declareFun("sconcat", []string{"Str", "Str"}, "Str")
 	g.axiomOnce("sconcat",
-		"(forall ((a Str) (b Str)) (! (= (slen (sconcat a b)) (+ (slen a) (slen b))) :pattern ((sconcat a b))))",
+		// (no string is longer than 2^56 bytes — the global bound on slen — so a concatenation that would
+		// be longer cannot complete; its length is clamped to keep the axioms consistent)
+		"(forall ((a Str) (b Str)) (! (= (slen (sconcat a b)) (ite (<= (+ (slen a) (slen b)) 72057594037927936) (+ (slen a) (slen b)) 72057594037927936)) :pattern ((sconcat a b))))",
 		"(forall ((a Str) (b Str) (i Int)) (! (= (sat (sconcat a b) i) (ite (< i (slen a)) (sat a i) (sat b (- i (slen a))))) :pattern ((sat (sconcat a b) i))))")
 	return app(fn, x, y)
 }
@@ -1024,7 +1026,7 @@ func (g *Gen) sconcat(x, y string) string {
 func (g *Gen) ssub(s, lo, hi string) string {
 	fn := g.declareFun("ssub", []string{"Str", "Int", "Int"}, "Str")
 	g.axiomOnce("ssub",
-		"(forall ((s Str) (a Int) (b Int)) (! (=> (and (<= 0 a) (<= a b)) (= (slen (ssub s a b)) (- b a))) :pattern ((ssub s a b))))",
+		"(forall ((s Str) (a Int) (b Int)) (! (=> (and (<= 0 a) (<= a b) (<= b (slen s))) (= (slen (ssub s a b)) (- b a))) :pattern ((ssub s a b))))",
 		"(forall ((s Str) (a Int) (b Int) (i Int)) (! (=> (and (<= 0 i) (< i (- b a))) (= (sat (ssub s a b) i) (sat s (+ a i)))) :pattern ((sat (ssub s a b) i))))",
 		"(forall ((s Str)) (! (= (ssub s 0 (slen s)) s) :pattern ((ssub s 0 (slen s)))))")
 	return app(fn, s, lo, hi)
@@ -1087,8 +1089,8 @@ func (g *Gen) strOfBytes(st *State, b string, bt types.Type) string {
 	k := g.elemKey(et)
 	fn := g.declareFun("str.of", []string{"(Array Int Int)", "Int", "Int"}, "Str")
 	g.axiomOnce("str.of",
-		"(forall ((a (Array Int Int)) (o Int) (n Int)) (! (=> (>= n 0) (= (slen (str.of a o n)) n)) :pattern ((str.of a o n))))",
-		"(forall ((a (Array Int Int)) (o Int) (n Int) (i Int)) (! (=> (and (<= 0 i) (< i n)) (= (sat (str.of a o n) i) (select a (+ o i)))) :pattern ((sat (str.of a o n) i))))")
+		"(forall ((a (Array Int Int)) (o Int) (n Int)) (! (=> (>= n 0) (= (slen (str.of a o n)) (ite (<= n 72057594037927936) n 72057594037927936))) :pattern ((str.of a o n))))",
+		"(forall ((a (Array Int Int)) (o Int) (n Int) (i Int)) (! (=> (and (<= 0 i) (< i n) (<= 0 (select a (+ o i))) (<= (select a (+ o i)) 255)) (= (sat (str.of a o n) i) (select a (+ o i)))) :pattern ((sat (str.of a o n) i))))")
 	return app(fn, app("select", g.get(st, k), app("s_arr", b)), app("s_off", b), app("s_len", b))
 }
 
